@@ -27,6 +27,7 @@ Section Nodes.
     n_fns : list (bool * scope);           (* DEFINED_FNS_IN: (is_lambda, ARGS_AND_BODY_SCOPE) *)
     n_cread : list name;                   (* S: free variables the reaching local functions read (not declared nonlocal) *)
     n_cread_nl : list name;                (* S: ... that they declare nonlocal and read *)
+    n_cread_lam : list name;               (* S: free variables read by lambda expressions evaluated on a path to this node *)
     n_genk : list name;                    (* C06: keys of gen_map[node] *)
     n_ltargets : list name;                (* node_scope.iterate_targets as recorded by activity (empty before the edge-sensitive repair) *)
     n_in : list A;
@@ -35,10 +36,11 @@ Section Nodes.
     n_writes : list name;                  (* S: bound by every instance *)
     n_dels : list name;                    (* S *)
     n_ftarget : list name;                 (* S: for header: bound iff an iteration starts *)
-    n_body : label }.                      (* S: for header: entry node of the loop body (0 otherwise) *)
+    n_body : label;                        (* S: for header: entry node of the loop body (0 otherwise) *)
+    n_bodyi : label }.                     (* for header: its CFG successor inside the loop (= n_body unless that statement contains a lambda, whose node comes first) *)
 
   Definition empty_node (l : label) : node :=
-    mknode l false empty_scope [] [] [] [] [] [] [] [] [] [] [] 0.
+    mknode l false empty_scope [] [] [] [] [] [] [] [] [] [] [] [] 0 0.
 
   Fixpoint find_node (ns : list node) (l : label) : node :=
     match ns with
@@ -52,7 +54,7 @@ Section Nodes.
 End Nodes.
 
 Arguments n_lab {A}. Arguments n_scoped {A}. Arguments n_scope {A}. Arguments n_fns {A}.
-Arguments n_cread {A}. Arguments n_cread_nl {A}. Arguments n_genk {A}. Arguments n_ltargets {A}. Arguments n_in {A}. Arguments n_out {A}.
+Arguments n_cread {A}. Arguments n_cread_nl {A}. Arguments n_cread_lam {A}. Arguments n_bodyi {A}. Arguments n_genk {A}. Arguments n_ltargets {A}. Arguments n_in {A}. Arguments n_out {A}.
 Arguments n_reads {A}. Arguments n_writes {A}. Arguments n_dels {A}. Arguments n_ftarget {A}. Arguments n_body {A}.
 Arguments find_node {A}. Arguments mema {A}. Arguments incla {A}. Arguments seteq {A}. Arguments mknode {A}.
 
@@ -75,6 +77,16 @@ Definition closed_bwd (E : list edge) (R : list label) : bool :=
   forallb (fun e => negb (memn (snd e) R) || memn (fst e) R) E.
 Definition closed_fwd (E : list edge) (R : list label) : bool :=
   forallb (fun e => Nat.eqb (snd e) EXIT || negb (memn (fst e) R) || memn (snd e) R) E.
+
+(* lambda expressions have CFG nodes of their own (in front of the statement that contains them) which no
+   execution trace mentions: contract them out of the edge list.  L = labels of the lambda nodes. *)
+Fixpoint resolve (E : list edge) (L : list label) (fuel : nat) (m : label) : list label :=
+  match fuel with
+  | 0 => [m]
+  | S f => if memn m L then flat_map (resolve E L f) (succs E m) else [m]
+  end.
+Definition contract (E : list edge) (L : list label) : list edge :=
+  flat_map (fun e => if memn (fst e) L then [] else map (pair (fst e)) (resolve E L (length L + 1) (snd e))) E.
 
 Definition scope_names (s : scope) : list name :=
   s_read s ++ s_modified s ++ s_bound s ++ s_deleted s ++ s_globals s ++ s_nonlocals s ++ s_annotations s ++ s_params s.
@@ -111,7 +123,7 @@ Section Liveness.
   (* the neighbours reached on loop-exit edges of a for header: all but the entry of the loop body *)
   Definition lv_exit_list (n : lnode) : list name :=
     flat_map (fun m => if t_join_in T then n_in (nd m) else n_out (nd m))
-             (filter (fun m => negb (Nat.eqb m (n_body n)))
+             (filter (fun m => negb (Nat.eqb m (n_bodyi n)))
                      (if t_join_succ T then succs E (n_lab n) else preds E (n_lab n))).
 
   Definition lv_env (n : lnode) : env name :=
@@ -135,22 +147,23 @@ Section Liveness.
     forallb (fun n => if memn (n_lab n) R then lv_fix_node n else lv_untouched n) ns.
 
   (* inclusions soundness needs, for the Python-side gen / kill *)
-  Definition lv_gen_node (closure_nl : bool) (n : lnode) : bool :=
+  Definition lv_gen_node (closure_nl closure_lam : bool) (n : lnode) : bool :=
     forallb (fun x => memn x (n_in n)) (n_reads n)
     && forallb (fun x => memn x (n_in n)) (n_cread n)
-    && (negb closure_nl || forallb (fun x => memn x (n_in n)) (n_cread_nl n)).
+    && (negb closure_nl || forallb (fun x => memn x (n_in n)) (n_cread_nl n))
+    && (negb closure_lam || forallb (fun x => memn x (n_in n)) (n_cread_lam n)).
 
-  Definition lv_sound_node (closure_nl : bool) (n : lnode) : bool :=
-    lv_gen_node closure_nl n
+  Definition lv_sound_node (closure_nl closure_lam : bool) (n : lnode) : bool :=
+    lv_gen_node closure_nl closure_lam n
     && forallb (fun x => kill_s n x || memn x (n_in n)) (n_out n).
 
   Definition lv_sound_edges (R : list label) : bool :=
     forallb (fun e => negb (memn (snd e) R)
                       || forallb (fun x => memn x (n_out (nd (fst e)))) (n_in (nd (snd e)))) E.
 
-  Definition lv_sound (closure_nl : bool) (R : list label) : bool :=
+  Definition lv_sound (closure_nl closure_lam : bool) (R : list label) : bool :=
     closed_bwd E R && negb (memn EXIT R) && forallb (fun l => memn l R) (exits E) && lv_sound_edges R
-    && forallb (fun l => lv_sound_node closure_nl (nd l)) R.
+    && forallb (fun l => lv_sound_node closure_nl closure_lam (nd l)) R.
 
   (* edge-sensitive (unguarded) version: on the edge (n, m) node n kills what its instance followed by m
      really rebinds: a for header binds its targets only towards the loop body *)
@@ -160,9 +173,9 @@ Section Liveness.
                                            && (dyn_kill (nd (fst e)) (snd e) x || memn x (n_in (nd (fst e)))))
                                  (n_in (nd (snd e)))) E.
 
-  Definition lv_sound_e (closure_nl : bool) (R : list label) : bool :=
+  Definition lv_sound_e (closure_nl closure_lam : bool) (R : list label) : bool :=
     closed_bwd E R && negb (memn EXIT R) && forallb (fun l => memn l R) (exits E) && lv_sound_e_edges R
-    && forallb (fun l => lv_gen_node closure_nl (nd l)) R.
+    && forallb (fun l => lv_gen_node closure_nl closure_lam (nd l)) R.
 End Liveness.
 
 (* annotations on statements *)
@@ -215,7 +228,7 @@ Section ReachDef.
   (* _edge_out(p, n): out[p], except on an exit edge of a for header p (n is not the entry of its body), where
      the loop targets carry the definitions of in_[p] instead of the header's own *)
   Definition rd_edge_out (p : rnode) (n : label) : list ditem :=
-    if t_edge T && negb (match n_ltargets p with [] => true | _ => false end) && negb (Nat.eqb (n_body p) n)
+    if t_edge T && negb (match n_ltargets p with [] => true | _ => false end) && negb (Nat.eqb (n_bodyi p) n)
     then filter (fun a => negb (memn (fst a) (n_ltargets p))) (n_out p)
          ++ filter (fun a => memn (fst a) (n_ltargets p)) (n_in p)
     else n_out p.
